@@ -1,6 +1,7 @@
 """C10 - every array and string gets exactly one declaration with the requested size.
 Static monitor over DIM statements and identifier uses parsed from real convert() outputs; the expected
 declaration table is computed from the abstract source program."""
+import os
 import random
 
 from .. import harness
@@ -179,7 +180,65 @@ def classify_positions(poss, nd=1):
     return "other"
 
 
+_TAGGED = {}
+
+
+def tagged_declarations():
+    """procedure -> names declared with the size placeholder in the current ecb.b09 (read from the raw text)."""
+    if not _TAGGED:
+        import re
+        from .. import boot
+
+        cur = None
+        for ln in open(os.path.join(boot.REPO, "coco", "resources", "ecb.b09")).read().split("\n"):
+            m = re.match(r"(?i)^\s*procedure\s+(\S+)", ln)
+            if m:
+                cur = m.group(1).lower()
+                continue
+            m = re.match(r"(?i)^\s*(?:param|dim)\s+([\w$, ]+?)\s*:\s*string<<>>", ln)
+            if m and cur:
+                for nm in m.group(1).split(","):
+                    _TAGGED.setdefault(cur, set()).add(nm.strip().lower())
+    return _TAGGED
+
+
+def run_bundle(case):
+    """The strings of the bundled runtime procedures are strings of the emitted program too: every declaration the library
+    writes with the size placeholder has the requested size in the bundle (and no explicit size when that is 32)."""
+    obs = {"counters": {}, "viols": [], "sets": {}}
+    storage = case["storage"]
+    obs["key"] = "bundle|%s|%d" % (case["text"], storage)
+    conv = harness.convert(case["text"], default_str_storage=storage, output_dependencies=True, procname="prog", initialize_vars=case.get("init", False))
+    if not conv["ok"]:
+        obs["nontrivial"] = False
+        obs["counters"]["not_converted"] = 1
+        return obs
+    procs, err = harness.parse_b09(conv["out"])
+    if procs is None:
+        obs["viols"].append({"sig": "C10/bundle/unparseable", "detail": {"source": case["text"], "storage": storage, "error": err}})
+        return obs
+    tagged = tagged_declarations()
+    n = 0
+    for pr in procs[:-1]:
+        want = tagged.get(pr.name.lower(), set())
+        if not want:
+            continue
+        for name, dims, ty, kind, idx in static.analyse(pr).decls:
+            if name.lower() in want:
+                n += 1
+                size = ty[1] if len(ty) > 1 else 32
+                if ty[0] != "STRING" or size != storage:
+                    obs["viols"].append({"sig": "C10/bundle/library-string-size", "detail": {
+                        "source": case["text"], "storage": storage, "procedure": pr.name, "name": name, "declared": list(ty)}})
+    obs["counters"]["library_string_declarations"] = n
+    obs["counters"]["declarations_checked"] = n
+    obs["nontrivial"] = n > 0
+    return obs
+
+
 def run_case(case):
+    if case.get("bundle"):
+        return run_bundle(case)
     if case.get("fixed"):
         prog, spec = [(n, list(st)) for n, st in case["fixed"]], [tuple(x) for x in case.get("spec", [])]
         dim_late = False
@@ -288,5 +347,9 @@ def cases(tier, seed):
             yield {"seed": st, "storage": st, "init": st == 16,
                    "fixed": [(10, [tgt]), (20, [("let", ("var", "P"), ("fn", "VARPTR", [("var", "A$")]), False)]), (30, [("data", [("q", "D")])])],
                    "spec": [("A$", True, 0, None, [nm, "varptr"])]}
+    for text in ('10 PLAY "C"', '10 HDRAW "U4"', "10 A=INSTR(1,A$,B$)", "10 A$=STRING$(3,B$)", "10 A=VAL(A$)", "10 INPUT A$,B", "10 READ A\n20 DATA ,1",
+                 '10 PLAY A$:HDRAW B$:A=VAL(A$)+INSTR(2,A$,"X"):PRINT STRING$(2,"*");HEX$(A)'):
+        for st in (1, 16, 32, 33, 128, 255):
+            yield {"bundle": True, "text": text, "storage": st, "init": st % 2 == 0, "seed": 0}
     for i in range(n):
         yield {"seed": seed * 1299709 + i, "storage": STORAGES[i % len(STORAGES)], "init": (i // len(STORAGES)) % 2 == 0, "sample": i % 900 == 0}
